@@ -29,7 +29,7 @@ Cases (`<label>` names the concrete Rust type on the harness side and is ignored
        bytes end inside row r)
        → `ctor:TypeCheck` | stop: `rows=<delivered> fin=end|TypeCheck` | all (polls through error items): `seq=r2e3x1r1 fin=end`
          (r rows, e type-check errors, x row-deserialization errors)
-  `bindrow seq|tup3|map | name T ; name T … | [name] <ref> V ; …`  SerializeRow through from_serializable
+  `bindrow seq|tup1|tup2|tup3|unit|u80|map|struct2|struct3 | name T ; name T … | [name] <ref> V ; …`  SerializeRow through from_serializable
        → `ok count=… cells=… <digest>` | `err WrongColumnCount` | `err ValueMissingForColumn n` | `err NoColumnWithName n`
          | `err col n <class> <path>` | `err TooManyValues`
   `batch <vec|tuple|iter> | cols || cols … | vals || vals …`  a BATCH bound through RawBatchValuesAdapter (one context per
@@ -477,7 +477,7 @@ def runBindRow (case : String) : String :=
     match words hd, (splitSemi cseg).mapM parseBindCol with
     | ["bindrow", kind], some cols =>
       let rv : Option RowVal :=
-        if kind == "map" then
+        if kind == "map" || kind == "struct2" || kind == "struct3" then
           ((splitSemi vseg).mapM fun s => match words s with
             | name :: _ref :: rest => (valOf (" ".intercalate rest)).map fun v => (name, v)
             | _ => none).map RowVal.byName
